@@ -30,14 +30,14 @@ var (
 
 // Solver is one long-lived solver process driven over stdin/stdout.
 type Solver struct {
-	Name    string
-	cmd     *exec.Cmd
-	in      io.WriteCloser
-	out     *bufio.Reader
-	defined []map[*Term]bool // per push level
-	Log     io.Writer
+	Name      string
+	cmd       *exec.Cmd
+	in        io.WriteCloser
+	out       *bufio.Reader
+	defined   []map[*Term]bool // per push level
+	Log       io.Writer
 	TimeoutMs int
-	shadows []*Solver // cross-checking back ends: fed the same script, must give the same verdicts
+	shadows   []*Solver // cross-checking back ends: fed the same script, must give the same verdicts
 }
 
 // Cross-check statistics.
